@@ -539,8 +539,8 @@ def runInput (kind : String) (sched toks : List Nat) : String :=
     let src := (List.range toks.length).zip toks |>.map fun (i, t) => (t, gapSpan i)
     let e := toks.length * 3 + 1
     let c0 : IterCursor := { rest := src, idx := 0, lastEnd := none }
-    String.join ((replayIterSpans (e, e) c0 sched [c0]).map fun (l, t, s1, s0, s2) =>
-      s!" {l}:{match t with | some t => toString t | none => "-"}@{s1.1}-{s1.2}@{s0.1}-{s0.2}@{s2.1}-{s2.2}")
+    String.join ((replayIterSpans (e, e) c0 sched [c0] []).map fun (l, t, s1, s0, s2, s3) =>
+      s!" {l}:{match t with | some t => toString t | none => "-"}@{s1.1}-{s1.2}@{s0.1}-{s0.2}@{s2.1}-{s2.2}@{s3.1}-{s3.2}")
   | other => s!" ERR unknown-kind-{other}"
 
 /-! ### nested inputs (C16):  NG <id> <ek> <gap> <mode> <fuel> T <ngroups> (<gid> <n> kids..)* G <ngram> I <inputspec> -/
@@ -589,6 +589,55 @@ def nestedCase : P NCase := do
   let inputs ← inputsP
   pure { id, gap, mode, fuel, groups := groups.reverse, g := ng, inputs }
 
+/-! ### nested_in anywhere (C16, general form):
+     NH <id> <ek> <gap> <mode> <fuel> T <ngroups> (<gid> <n> kids..)* A <G a> B <G b> M <G main> I <inputspec>
+   inside `a`, `b` and `main`, `call 0` is `a.nested_in(b)` -/
+
+structure HCase where
+  id : String
+  gap : Nat
+  mode : Mode
+  fuel : Nat
+  h : HEnv
+  main : G
+  inputs : List (List Nat)
+
+def nestedHCase : P HCase := do
+  let id ← tok
+  let ek ← tok
+  if ek != "rich" then throw s!"nested cases are Rich only, got {ek}"
+  let gap ← nat
+  let mode ← match (← tok) with
+    | "parse" => pure Mode.emit | "check" => pure Mode.check
+    | t => throw s!"bad mode {t}"
+  let fuel ← nat
+  let t ← tok
+  if t != "T" then throw "expected T"
+  let n ← nat
+  let mut groups := []
+  for _ in [0:n] do
+    let gid ← nat
+    let kids ← natList
+    groups := (gid, kids) :: groups
+  let ta ← tok
+  if ta != "A" then throw "expected A"
+  let a ← gP
+  let tb ← tok
+  if tb != "B" then throw "expected B"
+  let b ← gP
+  let tm ← tok
+  if tm != "M" then throw "expected M"
+  let main ← gP
+  let i ← tok
+  if i != "I" then throw "expected I"
+  let inputs ← inputsP
+  pure { id, gap, mode, fuel, h := { hole := 0, a, b, groups := groups.reverse, gap }, main, inputs }
+
+def mkHEnvBase (gap : Nat) (toks : List Nat) : Env :=
+  let n := toks.length
+  { toks := toks, kind := .mapped, ek := .rich, defs := [], memoOn := false,
+    tspans := layoutSpans gap n 0, eoi := (n * (gap + 2) + gap, n * (gap + 2) + gap) }
+
 def mkNEnv (c : NCase) (toks : List Nat) : NEnv :=
   let n := toks.length
   { base := { toks := toks, kind := .mapped, ek := .rich, defs := [], memoOn := false,
@@ -635,6 +684,17 @@ partial def loop (inp out : IO.FS.Stream) : IO Unit := do
       for ts in inputs do
         if fam == "tk" then out.putStrLn s!"{id}.{k} M -"
         else out.putStrLn s!"{id}.{k} M {runDrop fam n boxed mode hi ts}"
+        k := k + 1
+    | .error e => out.putStrLn s!"ERR {e} :: {line.trimAscii.toString}"
+    loop inp out
+  else if toks.head? == some "NH" then
+    match (nestedHCase.run toks.tail) with
+    | .ok (c, _) =>
+      let mut k := 0
+      for ts in c.inputs do
+        let env := mkHEnvBase c.gap ts
+        out.putStrLn s!"{c.id}.{k} M {renderTop (parseTopH c.h c.fuel env c.mode c.main)}"
+        out.putStrLn s!"{c.id}.{k} S {renderSpec (pegTopH c.h c.fuel env c.main)}"
         k := k + 1
     | .error e => out.putStrLn s!"ERR {e} :: {line.trimAscii.toString}"
     loop inp out
